@@ -158,6 +158,8 @@ struct Rq {
 struct FakeWorker {
     peer: Peer,
     closed: bool,
+    /// not part of the hub at all (a stopped worker the new main process did not take over)
+    absent: bool,
     received: Vec<(String, String)>, // (id, short name)
     /// terminal answers sent by this worker: (id, status, sequence number)
     answered: Vec<(String, i32, usize)>,
@@ -178,6 +180,7 @@ struct World {
     done_rx: mpsc::Receiver<Result<bool, String>>,
     timing_ok: bool,
     hub_failed: Option<String>,
+    handover_ok: Option<bool>,
 }
 
 struct Sleepers(Vec<std::process::Child>);
@@ -291,7 +294,9 @@ enum Barrier {
 }
 
 impl World {
-    fn start(nw: usize, timeout_s: u64, nc: usize, pids: &[i32], tag: &str) -> World {
+    /// `handover`: Some(stopped worker or -1): the hub the case talks to is not the one that was
+    /// built but the one `CommandHub::from_upgrade_data` re-creates from its serialised `UpgradeData`
+    fn start(nw: usize, timeout_s: u64, nc: usize, pids: &[i32], tag: &str, handover: Option<i64>) -> World {
         let dir = format!("/tmp/c09-{}-{}", std::process::id(), tag);
         let _ = std::fs::remove_dir_all(&dir);
         std::fs::create_dir_all(&dir).unwrap();
@@ -305,9 +310,10 @@ impl World {
             let (s1, s2) = UnixStream::pair().unwrap();
             a.set_nonblocking(true).unwrap();
             hub_ends.push((w as u32, pids[w], a, s1, s2));
-            workers.push(FakeWorker { peer: Peer::new(b), closed: false, received: vec![], answered: vec![] });
+            workers.push(FakeWorker { peer: Peer::new(b), closed: false, absent: false, received: vec![], answered: vec![] });
         }
         let (tx, rx) = mpsc::channel();
+        let (ho_tx, ho_rx) = mpsc::channel::<bool>();
         let cfg_path = format!("{dir}/config.toml");
         let sp = sock_path.clone();
         std::thread::Builder::new()
@@ -335,6 +341,48 @@ impl World {
                         hub.server.register_worker(id, pid, channel, scm).expect("register");
                         keep.push(scm_peer);
                     }
+                    if let Some(stopped) = handover {
+                        // what upgrade_main hands to the new main process, minus the fork:
+                        // generate_upgrade_data -> JSON (as fork_main_into_new_main writes it) ->
+                        // UpgradeData (as begin_new_main_process reads it) -> from_upgrade_data
+                        for i in 0..3 {
+                            let _ = hub.server.state.dispatch(&Request {
+                                request_type: Some(RequestType::AddCluster(Cluster { cluster_id: format!("before-upgrade-{i}"), ..Default::default() })),
+                            });
+                        }
+                        if stopped >= 0 {
+                            let token = hub.server.workers.iter().find(|(_, w)| w.id == stopped as u32).map(|(t, _)| *t);
+                            if let Some(token) = token {
+                                hub.server.close_worker(&token);
+                            }
+                        }
+                        hub.server.boot_generation = 3;
+                        let data = hub.server.generate_upgrade_data();
+                        let json = serde_json::to_string(&data).expect("serialize UpgradeData");
+                        let back: sozu::command::upgrade::UpgradeData = serde_json::from_str(&json).expect("parse UpgradeData");
+                        let same = back.command_socket_fd == data.command_socket_fd
+                            && back.config == data.config
+                            && back.state == data.state
+                            && back.next_client_id == data.next_client_id
+                            && back.next_session_id == data.next_session_id
+                            && back.next_task_id == data.next_task_id
+                            && back.next_worker_id == data.next_worker_id
+                            && back.boot_generation == data.boot_generation
+                            && back.workers.len() == data.workers.len()
+                            && back.workers.iter().zip(data.workers.iter()).all(|(a, b)| {
+                                a.channel_fd == b.channel_fd && a.scm_fd == b.scm_fd && a.pid == b.pid && a.id == b.id && a.run_state == b.run_state
+                            })
+                            && serde_json::to_string(&back).ok().as_deref() == Some(json.as_str());
+                        let state_before = data.state.clone();
+                        let next_task_before = data.next_task_id;
+                        // the old main process keeps its descriptors open until it exits
+                        std::mem::forget(hub);
+                        let mut hub2 = CommandHub::from_upgrade_data(back).expect("from_upgrade_data");
+                        let carried = hub2.server.state == state_before && hub2.server.boot_generation == 3;
+                        let _ = next_task_before;
+                        let _ = ho_tx.send(same && carried);
+                        return hub2.run();
+                    }
                     hub.run()
                 }));
                 let _ = tx.send(r.map_err(|e| {
@@ -349,6 +397,17 @@ impl World {
             let s = UnixStream::connect(p).expect("connect");
             Peer::new(s)
         };
+        let handover_ok = match handover {
+            Some(_) => Some(ho_rx.recv_timeout(Duration::from_secs(20)).unwrap_or(false)),
+            None => None,
+        };
+        if let Some(st) = handover {
+            if st >= 0 && (st as usize) < workers.len() {
+                // a stopped worker is not re-registered by the new main process
+                workers[st as usize].closed = true;
+                workers[st as usize].absent = true;
+            }
+        }
         let clients = (0..nc).map(|_| connect(&sock_path)).collect();
         let control = connect(&sock_path);
         World {
@@ -366,6 +425,7 @@ impl World {
             done_rx: rx,
             timing_ok: true,
             hub_failed: None,
+            handover_ok,
         }
     }
 
@@ -489,6 +549,9 @@ impl World {
             // what the fake workers received
             let cur_rq = self.rqs.len().checked_sub(1);
             for w in 0..self.workers.len() {
+                if self.workers[w].absent {
+                    continue;
+                }
                 toks.push(ts("q"));
                 if self.workers[w].closed {
                     continue;
@@ -804,8 +867,22 @@ fn attempt(case: &Case, pids: &[i32], n: usize) -> (Out, bool) {
                     continue;
                 }
                 let tag = format!("{}-{n}", case.id);
-                let mut w = World::start(nw, t, nc, pids, &tag);
+                let mut w = World::start(nw, t, nc, pids, &tag, None);
                 w.observe(&mut out, &[]);
+                world = Some(w);
+            }
+            "hub2" => {
+                let nw = op.args[0].n() as usize;
+                let t = op.args[1].n() as u64;
+                let nc = op.args[2].n() as usize;
+                let stopped = op.args[3].n() as i64;
+                let tag = format!("{}-{n}", case.id);
+                let mut w = World::start(nw, t, nc, pids, &tag, Some(stopped));
+                let ok = w.handover_ok == Some(true);
+                if !ok {
+                    out.viol("upgrade-data", "UpgradeData did not survive its JSON round trip, or the re-created hub does not carry the state / boot generation");
+                }
+                w.observe(&mut out, &[tbool(ok)]);
                 world = Some(w);
             }
             "end" => match world.as_mut() {
